@@ -4,7 +4,7 @@ from __future__ import annotations
 
 from harness import c01, mutate, seam
 from harness.c03 import _tree_eq
-from harness.common import PART, pick, result
+from harness.common import PART, known, pick, result
 from harness.models import WILD_MODES, Mixed, Wild, WildList
 from harness.specs import _is_pyspace, _is_xml_char, _is_xmlspace
 from vlib.jobs import Job
@@ -48,12 +48,28 @@ def _textok(s):
     return any([all([not _is_xmlspace(c), not _is_pyspace(c)]) for c in cps])
 
 
+XS = "http://www.w3.org/2001/XMLSchema"
+_KNOWN_ATTR_QNAME = known("C11-attribute-qname-rewrite")
+_KNOWN_DERIVED_TAIL = known("C11-derived-primitive-tail-lost")
+
+
 def _gen(shape, n0, n1, n2, s0, s1, a0):
-    """shape 0: leaf; 1: one child; 2: two children; 3: child with grandchild; 4: two children, first with a grandchild."""
+    """shape 0: leaf; 1: one child; 2: two children; 3: child with grandchild; 4: two children, first with a grandchild;
+    5: leaf carrying xsi:type="xs:string" with the xs prefix declared on itself; 6: child whose attribute value LOOKS like a
+    QName (declared prefix on the element itself / undeclared prefix)."""
     def leaf(name, text, tail=None, attrs=None):
         return mutate.Node(NAMES[name], attrs or {}, text if text != "" else None, tail if tail != "" else None)
 
     root = leaf(n0, s0, None, {ANAMES[a0]: s1} if a0 < len(ANAMES) else {})
+    if shape == 5:
+        return mutate.Node(NAMES[n0], {"{%s}type" % seam.XSI: "xs:string"}, s0 if s0 != "" else None, None, [], [("xs", XS)])
+    if shape == 6:
+        val = ["x:y", "zz:" + s1, "q:thing"][a0 % 3]
+        if a0 % 3 == 2 and _KNOWN_ATTR_QNAME:
+            val = "q-thing"  # exactly the signature of the listed known finding is excluded
+        root.attrs = {}
+        root.children = [mutate.Node(NAMES[n1], {"kind": val, "{urn:b}k": s0}, s1 if s1 != "" else None, None, [], [("q", "urn:b")])]
+        return root
     if shape == 0:
         return root
     root.text = s0 if s0 != "" else None
@@ -74,6 +90,9 @@ def _gen(shape, n0, n1, n2, s0, s1, a0):
 
 def _norm(node):
     """Infoset tree of a Node in the shape seam.tree_of produces (text pieces and children in document order)."""
+    tkey = "{%s}type" % seam.XSI
+    if node.attrs.get(tkey) == "xs:string":
+        node = mutate.Node(node.qname, dict(node.attrs, **{tkey: "{%s}string" % XS}), node.text, node.tail, node.children, node.ns)
     kids = []
     if node.text:
         kids.append(node.text)
@@ -101,6 +120,8 @@ def tree_rt(shape: int, n0: int, n1: int, n2: int, s0: str, s1: str, a0: int) ->
     handler = PART.get("handler", "native")
     g = _gen(shape, n0, n1, n2, s0, s1, a0)
     ctx = _ctx()
+    if place == "tree" and shape == 5:
+        return True  # the tree parser has no types: an xsi:type'd primitive is not comparable with a wildcard capture
     if place == "tree":
         # the stand-alone tree parser builds the same generic tree, with both handlers, as a wildcard field captures
         from harness.common import deep_eq
@@ -120,6 +141,8 @@ def tree_rt(shape: int, n0: int, n1: int, n2: int, s0: str, s1: str, a0: int) ->
         else:
             cls, doc = Mixed, mutate.Node("mixed", {}, s0 if s0 != "" else None, None, [g])
             g.tail = s1 if s1 != "" else None
+            if shape == 5 and _KNOWN_DERIVED_TAIL:
+                g.tail = None  # exactly the signature of the listed known finding is excluded
         obj = seam.parse_context(mutate.linearize(doc), cls, handler, ParserConfig(), ctx)
     calls = seam.to_sax(obj, PART.get("writer", "native"), None, None, ctx)
     if seam.monitor(calls, PART.get("writer", "native") == "native"):
@@ -182,10 +205,12 @@ def plan(tier):
     jobs = []
     quick = tier == "quick"
     for p_i, place in enumerate(("tree", "wild", "list", "mixed")):
-        for shape in range(5):
+        for shape in range(7):
             for h_i, handler in enumerate(("native", "lxml")):
                 if quick and (p_i + shape + h_i) % 2:
                     continue
+                if place == "tree" and shape == 5:
+                    continue  # not comparable (see tree_rt)
                 for writer in (("native", "lxml") if not quick else (("native", "lxml")[(h_i + shape) % 2],)):
                     for rot in ((0,) if quick else (0, 1, 2)):
                         jobs.append(Job("tree_rt", {"place": place, "shape": shape, "rot": rot, "handler": handler, "writer": writer, "slen": 1 if quick else 2}, 240 if quick else 1200, 30))
@@ -203,3 +228,33 @@ def root_render_witness():
     tree = TP().from_string('<c xmlns="urn:c" k="v">x<d/></c>')
     text = XmlSerializer(config=SerializerConfig(xml_declaration=False)).render(tree)
     return TP().from_string(text) == tree
+
+
+def attr_qname_witness():
+    """Known finding C11-attribute-qname-rewrite through the public API."""
+    from xsdata.formats.dataclass.parsers import XmlParser
+    from xsdata.formats.dataclass.serializers import XmlSerializer
+
+    xml = '<wild xmlns="urn:a"><x:foo xmlns:x="urn:c" xmlns:q="urn:b" kind="q:thing">t</x:foo></wild>'
+    obj = XmlParser().from_string(xml, Wild)
+    return 'kind="q:thing"' in XmlSerializer().render(obj) and obj.any.attributes["kind"] == "q:thing"
+
+
+def xsi_type_drift_witness():
+    """Known finding C11-xsi-type-drift through the public API."""
+    from xsdata.formats.dataclass.parsers import XmlParser
+    from xsdata.formats.dataclass.serializers import XmlSerializer
+
+    xml = ('<wild xmlns="urn:a"><x:foo xmlns:x="urn:c" xmlns:xs="http://www.w3.org/2001/XMLSchema" '
+           'xmlns:xsi="http://www.w3.org/2001/XMLSchema-instance" xsi:type="xs:int">5</x:foo></wild>')
+    return 'xsi:type="xs:int"' in XmlSerializer().render(XmlParser().from_string(xml, Wild))
+
+
+def derived_tail_witness():
+    """Known finding C11-derived-primitive-tail-lost through the public API."""
+    from xsdata.formats.dataclass.parsers import XmlParser
+    from xsdata.formats.dataclass.serializers import XmlSerializer
+
+    xml = ('<mixed xmlns:xs="http://www.w3.org/2001/XMLSchema" xmlns:xsi="http://www.w3.org/2001/XMLSchema-instance">'
+           'a<c xsi:type="xs:string">t</c>TAIL</mixed>')
+    return "TAIL" in XmlSerializer().render(XmlParser().from_string(xml, Mixed))
